@@ -832,6 +832,8 @@ class Wild(Family):
             Doc('wd-tail-undeclared-known-ok', D(tail=' <o:t1><w:known>7</w:known><o:d><w:known>8</w:known></o:d></o:t1>\n')),
             Doc('wd-tail-undeclared-nil', D(tail=' <o:t1 xmlns:xsi="http://www.w3.org/2001/XMLSchema-instance" xsi:nil="true"/>\n'),
                 'fault:nil'),
+            # a DECLARED element at a position where the content model does not admit it, invalid in itself
+            Doc('wd-tail-target-bad', D(tail=' <w:known>x</w:known>\n'), 'fault:wildcard', tag='misplaced-child-with-own-errors'),
             Doc('wd-tail-undeclared-deep-bad', D(tail=' <o:t1/>\n <o:t2><o:d><w:known>x</w:known></o:d><w:known>9</w:known></o:t2>\n'),
                 'fault:lexical'),
         ]
